@@ -8,7 +8,7 @@ import numpy as np
 from vlib import core, prog, physics
 
 ASSUME = [
-    "decided only for stationary, below-threshold states: stationarity gate = the last five recorded profiles (one per synchrotron period) agree to 5e-4 of the peak (runs last 20 damping times); otherwise the case is inconclusive, not a verdict",
+    "decided only for stationary, below-threshold states: stationarity gate = the last five recorded profiles (one per synchrotron period), each normalised to unit sum, agree to 5e-4 of the peak (runs last 20 damping times); otherwise the case is inconclusive, not a verdict",
     "R(q) = ln rho(q) + q^2/2 - (1/a) * integral W_E dq with a = 2 pi/steps, W_E = stored wake (cells per step) * energy cell size, trapezoid rule on /Info/AxisValues_z; range of R over |q| <= 2 must be <= 5% of the range of the wake term + 0.01",
     "sign convention derived from the maps: drift moves charge by -a*p, RF kick by +tan(a)*q, wake kick by -W cells",
     "energy spread of the stationary state within 0.8*delta^2 + 1e-3 of 1",
@@ -60,7 +60,9 @@ def analyse(h, P):
     core_sel = (np.abs(z) <= 2.0) & (rho > 0)
     R = np.log(rho[core_sel]) + 0.5 * z[core_sel] ** 2 - term[core_sel]
     Rflip = np.log(rho[core_sel]) + 0.5 * z[core_sel] ** 2 + term[core_sel]
-    stat = float(np.max(np.abs(prof[-5:] - prof[-1])) / np.max(prof[-1])) if prof.shape[0] >= 6 else 9.0
+    # shape stationarity (a slow drift of the total charge over tens of thousands of steps only shifts R by a constant)
+    shape = prof / np.sum(prof, axis=1, keepdims=True)
+    stat = float(np.max(np.abs(shape[-5:] - shape[-1])) / np.max(shape[-1])) if prof.shape[0] >= 6 else 9.0
     return dict(rangeR=float(np.ptp(R)), rangeT=float(np.ptp(term[core_sel])), rangeRflip=float(np.ptp(Rflip)), stationarity=stat,
                 spread=float(es[-1]), centroid=float(np.sum(rho * z) / np.sum(rho)))
 
